@@ -41,10 +41,12 @@ KNOWN = {
     'gpt-crc': (lambda c: c.get('hybrid') in ('efi', 'mac'), lambda c, p: True),
     # ECMA-119 6.8.2.2 / 9.1: '..' describes the parent directory; pycdlib leaves its data length at
     # 2048 when the parent directory has grown beyond one sector (/MANY/SUB/.. in the 'bigsub' test images).
-    'dotdot-wrong': (lambda c: bool(c.get('bigsub')), _dotdot_len_only),
+    # (repaired in /repo by a fix: commit; must not be reported any more)
+    'dotdot-wrong': (lambda c: False, _dotdot_len_only),
     # The root record inside the enhanced (ISO 9660:1999) descriptor keeps data length 2048 when the root
     # directory needs more than one sector, so it disagrees with the '.' record of the root directory.
-    'dot-wrong': (lambda c: None if c['interchange_level'] == 4 else False, _enhanced_root_len_only),
+    # (repaired in /repo as well)
+    'dot-wrong': (lambda c: False, _enhanced_root_len_only),
 }
 
 # check_rr_nlink() findings expected on every image with a relocated directory (physical view of the
@@ -743,7 +745,7 @@ def extra_cases():
     expect([p.rule for p in im.problems] == ['dir-not-sorted'] and [c.name for c in im.iso_root.children] == [b'A.B1;1', b'A.B;1'],
            'sort order deviation: %r' % [str(p) for p in im.problems])
     n += 1
-    # known deviation: '..' of a directory created inside an already multi-sector directory
+    # former deviation (repaired in /repo): '..' of a directory created inside an already multi-sector directory
     iso = pycdlib.PyCdlib()
     iso.new()
     iso.add_directory('/A')
@@ -751,7 +753,7 @@ def extra_cases():
         iso.add_fp(io.BytesIO(b'a'), 1, iso_path='/A/F%02d.;1' % i)
     iso.add_directory('/A/B')
     im = reader.read_image(write(iso), check=False)
-    expect([p.rule for p in im.problems] == ['dotdot-wrong'], 'dotdot deviation: %r' % [str(p) for p in im.problems])
+    expect([p.rule for p in im.problems] == [], 'dotdot deviation: %r' % [str(p) for p in im.problems])
     n += 1
     # known deviation: root record of the enhanced descriptor is not updated when the root grows
     iso = pycdlib.PyCdlib()
@@ -759,7 +761,7 @@ def extra_cases():
     for i in range(60):
         iso.add_fp(io.BytesIO(b'a'), 1, iso_path='/F%02d.;1' % i)
     im = reader.read_image(write(iso), check=False)
-    expect([p.rule for p in im.problems] == ['dot-wrong'] and len(im.enhanced_root.children) == 60,
+    expect([p.rule for p in im.problems] == [] and len(im.enhanced_root.children) == 60,
            'enhanced root deviation: %r' % [str(p) for p in im.problems])
     n += 1
     # a non-image
